@@ -866,7 +866,7 @@ theorem covers_mono (rem o : Res) (w : Wants) (hc : rem.cpu = o.cpu) (hm : rem.m
 /-- What holds of every launch the model makes on offer `o`. -/
 def Good (m : Mode) (o : Offer) (l : Launch) : Prop :=
   m.sat o.attrs l.desc.cts = true ∧
-  ∃ c, l.desc.cls = some c ∧ covers o.res (c.wants m) = true ∧
+  ∃ c, l.desc.cls = some c ∧ Valid (c.wants m).static = true ∧ covers o.res (c.wants m) = true ∧
     l.task.cpu = c.cpu ∧ l.task.mem = c.mem ∧ l.task.static = (c.wants m).static ∧
     l.task.dyn.length = tcpCount c.inbound ∧ (∀ p ∈ l.task.dyn, 9000 ≤ p) ∧ 30000 ≤ l.task.ctrl
 
@@ -884,6 +884,23 @@ structure Inv (m : Mode) (o : Offer) (s : OState) : Prop where
 /-- all static ranges that can be asked for are well-formed (begin ≤ end) -/
 def StaticValid (m : Mode) (ds : List Desc) : Prop :=
   ∀ d ∈ ds, ∀ c, d.cls = some c → Valid (c.wants m).static = true
+
+theorem staticValid_iff (m : Mode) (ds : List Desc) : staticValid m ds = true ↔ StaticValid m ds := by
+  unfold staticValid StaticValid
+  rw [List.all_eq_true]
+  constructor
+  · intro h d hd c hc
+    have := h d hd
+    rw [hc] at this; exact this
+  · intro h d hd
+    cases hc : d.cls with
+    | none => rfl
+    | some c => exact h d hd c hc
+
+theorem validInputs_iff (m : Mode) (descs : List Desc) (order : List Offer) :
+    validInputs m descs order = true ↔ (∀ o ∈ order, OValid o.res.ports = true) ∧ StaticValid m descs := by
+  unfold validInputs offersValid
+  rw [Bool.and_eq_true, List.all_eq_true, staticValid_iff]
 
 theorem inv_setPorts (m : Mode) (o : Offer) (s : OState) (p : Option Ranges) (used : Bool)
     (h : Inv m o s) (hs : Sub p s.rem.ports) :
@@ -932,7 +949,7 @@ theorem inv_step (m : Mode) (o : Offer) (s : OState) (d : Desc) (t : Task) (p : 
             | inl hl => exact h.good l hl
             | inr hl =>
               simp only [List.mem_singleton] at hl; subst hl
-              exact ⟨hsat, c, hcls, hcov, k6, k7, k8, k5, k3, k4⟩
+              exact ⟨hsat, c, hcls, hsv c hcls, hcov, k6, k7, k8, k5, k3, k4⟩
           · rw [drawnOf_append, List.nodup_append]
             refine ⟨h.nodup, k2, ?_⟩
             intro a ha b hb hab
